@@ -46,7 +46,7 @@ DEBUG_ASSERT = re.compile(r"^\s*debug_assert(_eq|_ne)?!\(")
 
 
 def _lits(s):
-    m = re.match(r"\s*<<(.*?)>>\s*=>\s*<<(.*?)>>\s*(#\d+|\*)?\s*$", s, re.S)
+    m = re.match(r"\s*<<(.*?)>>\s*=>\s*<<(.*?)>>\s*(#\d+|\*|\?)?\s*$", s, re.S)
     if not m:
         raise ExtractError("bad rewrite directive: %r" % s)
     return m.group(1).replace("\\n", "\n"), m.group(2).replace("\\n", "\n"), m.group(3)
@@ -251,6 +251,19 @@ class Unit:
                         continue
                     body = body[:idx] + new + body[idx + len(old):]
                     self.count("sub:%s=>%s" % (old, new))
+            elif op == "subw":
+                # whitespace-tolerant rewrite of every occurrence: the pattern's tokens may be separated by any
+                # white space in the source (so a re-indented or re-wrapped call chain is still recognised);
+                # mode "?" = optional (absence is not a lost rewrite)
+                old, new, mode = _lits(arg)
+                rx = re.compile(r"\s*".join(re.escape(t) for t in old.split()))
+                body2, c = rx.subn(lambda m: new, body)
+                if c == 0:
+                    if mode != "?":
+                        lost("body rewrite (any white space) %r not found" % old)
+                    continue
+                body = body2
+                self.count("subw:%s=>%s" % (old, new), c)
             elif op == "private":
                 sig2 = re.sub(r"^(\s*)pub(\s*\([^)]*\))?\s+", r"\1", sig, count=1)
                 if sig2 == sig:
